@@ -27,6 +27,68 @@ def lit(x):
     return ("lit", f2bits(float(x)))
 
 
+class Unsupported(Exception):
+    """construct outside the modelled fragment (re-exported by machine.py)"""
+
+
+# Residuals are structural tuples: hashing and comparing a node costs its size *as a tree*.  A loop
+# that feeds a value back several times per iteration (Newton steps, repeated squaring) makes that
+# size exponential in the iteration count while the DAG stays small, so the tree size of every
+# composite node is tracked (by object identity; the table keeps big nodes alive) and construction
+# stops with Unsupported beyond TREE_LIMIT instead of hanging in a later hash.
+TREE_LIMIT = 1_000_000_000
+_TSIZE = {}
+_SMALL = 48
+
+
+def tsize(n):
+    e = _TSIZE.get(id(n))
+    if e is not None and e[0] is n:
+        return e[1]
+    if not isinstance(n, tuple) or n[0] in ("atom", "lit", "i2f", "opq"):
+        return 1
+    # an untracked composite is small (<= _SMALL) or was built outside mk()/fn(): count it
+    return 1 + sum(tsize(k) for k in (n[2:] if n[0] == "fn" else n[1:]) if isinstance(k, tuple))
+
+
+class N(tuple):
+    """composite residual node: a tuple whose hash is computed once.  Nodes built by mk()/fn() are
+    interned, so structurally equal residuals are the same object and dict/set operations on deep
+    shared DAGs stay linear in the DAG size."""
+
+    def __hash__(self):
+        d = self.__dict__
+        h = d.get("_h")
+        if h is None:
+            h = d["_h"] = tuple.__hash__(self)
+        return h
+
+    def __eq__(self, o):
+        return self is o or tuple.__eq__(self, o)
+
+    def __ne__(self, o):
+        return not (self is o or tuple.__eq__(self, o))
+
+
+_INTERN = {}
+
+
+def _new(node, *kids):
+    node = N(node)
+    node = _INTERN.setdefault(node, node)
+    if id(node) in _TSIZE:
+        return node
+    s = 1
+    for k in kids:
+        if isinstance(k, tuple):
+            s += tsize(k)
+    if s > _SMALL:
+        if s > TREE_LIMIT:
+            raise Unsupported("floating-point expression grows beyond %d nodes (a value fed back through a long loop)" % TREE_LIMIT)
+        _TSIZE[id(node)] = (node, s)
+    return node
+
+
 ZERO = lit(0.0)
 ONE = lit(1.0)
 NAN = ("lit", f2bits(float("nan")))
@@ -147,7 +209,7 @@ def mk(op, a, b=None, ctx=DEFAULT):
             return lit(-litval(a))
         if a[0] == "neg":
             return a[1]
-        return ("neg", a)
+        return _new(("neg", a), a)
     if is_lit(a) and is_lit(b):
         return _fold2(op, a, b, ctx)
     # NaN literal absorbs
@@ -179,7 +241,7 @@ def mk(op, a, b=None, ctx=DEFAULT):
             return ZERO
         if ctx.finite and a == b and ctx.nonzero(b):
             return ONE
-    return (op, a, b)
+    return _new((op, a, b), a, b)
 
 
 # set by the evaluator while it runs with Config.fold_inexact (all inputs literal: the program's own
@@ -233,7 +295,7 @@ def fn(name, *args):
                 return ("fn", name) + tuple(args)
         except (OverflowError, ValueError):
             pass
-    return ("fn", name) + tuple(args)
+    return _new(("fn", name) + tuple(args), *args)
 
 
 def atoms(n, acc=None):
